@@ -912,15 +912,23 @@ def from_text(
                 grdata = GenericRdata.from_text(
                     rdclass, rdtype, tok, origin, relativize, relativize_to
                 )
+                #
+                # Names in the wire form are absolute; relativize them only if
+                # asked to, and against the same origin the type's own
+                # from_text() would use.
+                #
+                gorigin = None
+                if relativize:
+                    gorigin = relativize_to if relativize_to is not None else origin
                 rdata = from_wire(
-                    rdclass, rdtype, grdata.data, 0, len(grdata.data), origin
+                    rdclass, rdtype, grdata.data, 0, len(grdata.data), gorigin
                 )
                 #
                 # If this comparison isn't equal, then there must have been
                 # compressed names in the wire format, which is an error,
                 # there being no reasonable context to decompress with.
                 #
-                rwire = rdata.to_wire(origin=origin)
+                rwire = rdata.to_wire(origin=gorigin)
                 if rwire != grdata.data:
                     raise dns.exception.SyntaxError(
                         "compressed data in "
